@@ -45,4 +45,42 @@ def iterAll (r : Ring α) : List α :=
   else if r.pos = 0 then []
   else (r.buf.take p).reverse ++ (r.buf.drop p).reverse
 
+/-! ### the iterator itself (`IWRB_ITER`), branch by branch -/
+
+/-- `struct iwrp_iter` (without the ring pointer) -/
+structure Iter where
+  pos : Nat
+  ipos : Int
+  deriving Repr
+
+/-- `iwrb_iter_init` -/
+def iterInit (r : Ring α) : Iter :=
+  { pos := r.pos.natAbs, ipos := if r.pos > 0 then -r.pos else r.pos }
+
+/-- `iwrb_iter_prev`: the new iterator and the index of the cell returned (`none` = NULL) -/
+def iterPrev (r : Ring α) (it : Iter) : Iter × Option Nat :=
+  if it.ipos = 0 then (it, none)
+  else if r.pos < 0 then
+    if it.pos = 0 then (it, none)
+    else ({ pos := it.pos - 1, ipos := if it.ipos < 0 then -it.ipos else it.ipos }, some (it.pos - 1))
+  else
+    let pos := if it.pos = 0 then r.len else it.pos
+    if it.ipos < 0 then ({ pos := pos - 1, ipos := -it.ipos }, some (pos - 1))
+    else if it.ipos = pos then ({ pos := pos, ipos := 0 }, none)
+    else ({ pos := pos - 1, ipos := it.ipos }, some (pos - 1))
+
+/-- `while ((p = iwrb_iter_prev(&it))) …` with a step budget; a read outside the buffer ends the walk -/
+def iterGo (r : Ring α) : Nat → Iter → List α
+  | 0, _ => []
+  | f + 1, it =>
+    match iterPrev r it with
+    | (_, none) => []
+    | (it', some i) =>
+      match r.buf[i]? with
+      | some x => x :: iterGo r f it'
+      | none => []
+
+/-- everything the iterator yields (`len` cells at most, one more call for the final NULL) -/
+def iterList (r : Ring α) : List α := iterGo r (r.len + 1) (iterInit r)
+
 end IwModel.Ring
